@@ -242,14 +242,19 @@ deriving DecidableEq, Repr
 
 abbrev Store := List (Option Entry)
 
-def lookup (s : Store) (t : Target) : Option (Entry × Val) := do
-  let e ← (s[t.root]?).join
-  let v ← e.val.get t.path
-  pure (e, v)
+/-- the part at a path together with its mutability: a part is an instance of a mutable class iff
+    the root is and neither the part nor anything above it belongs to a class without a mutable
+    variant (witness objects, tuples of a witness/block) -/
+def Val.getM : Bool → Val → List Nat → Option (Bool × Val)
+  | m, v, [] => some (m, v)
+  | m, v, i :: p =>
+    match v.child i with
+    | none => none
+    | some c => Val.getM (m && !c.alwaysImm) c p
 
-/-- is the object at the target an instance of a mutable class?  (a mutable root's parts are
-    mutable except its witness, whose classes have no mutable variant) -/
-def mutAt (e : Entry) (v : Val) : Bool := e.isMut && !v.alwaysImm
+def lookup (s : Store) (t : Target) : Option (Bool × Val) := do
+  let e ← (s[t.root]?).join
+  e.val.getM e.isMut t.path
 
 def Field.apply : Field → Val → Option Val
   | .hash b, .outpoint o => some (.outpoint { o with hash := b })
@@ -335,10 +340,10 @@ def step (s : Store) : Op → Store × Out
   | .snapshot t =>
       match lookup s t with
       | none => (bind s none, .badRef)
-      | some (e, v) =>
+      | some (m, v) =>
         match v with
         | .outpoint _ | .txin _ | .txout _ | .tx _ | .inwit _ | .wit _ =>
-          if !mutAt e v then (bind s (some ⟨false, v⟩), .created)
+          if !m then (bind s (some ⟨false, v⟩), .created)
           else if validCtor v then (bind s (some ⟨false, v⟩), .created)
           else (bind s none, .err .valueerr)
         | _ => (bind s none, .na)
@@ -354,9 +359,9 @@ def step (s : Store) : Op → Store × Out
   | .assign t f =>
       match lookup s t with
       | none => (bind s none, .badRef)
-      | some (e, v) =>
+      | some (m, v) =>
         if v.isSeq then (bind s none, .na)
-        else if !mutAt e v then (bind s none, .err attributeError)
+        else if !m then (bind s none, .err attributeError)
         else match f.apply v with
           | none => (bind s none, .err attributeError)
           | some w =>
@@ -366,9 +371,9 @@ def step (s : Store) : Op → Store × Out
   | .delAttr t =>
       match lookup s t with
       | none => (bind s none, .badRef)
-      | some (e, v) =>
+      | some (m, v) =>
         if v.isSeq then (bind s none, .na)
-        else if !mutAt e v then (bind s none, .err attributeError)
+        else if !m then (bind s none, .err attributeError)
         else (bind s none, .na)
   | .setVin r l => editList s r (l.all validTxIn) attributeError fun t => .ok { t with vin := l }
   | .setVout r l => editList s r true attributeError fun t => .ok { t with vout := l }
@@ -393,9 +398,9 @@ def step (s : Store) : Op → Store × Out
   | .pyHash t => observe s t fun v => .bytes (pyHashOf v)
   | .eq a b =>
       match lookup s a, lookup s b with
-      | some (ea, va), some (eb, vb) =>
+      | some (ma, va), some (mb, vb) =>
         if va.isSeq || vb.isSeq then (bind s none, .na)
-        else (bind s none, .bool (eqVals (mutAt ea va) va (mutAt eb vb) vb))
+        else (bind s none, .bool (eqVals ma va mb vb))
       | _, _ => (bind s none, .badRef)
   | .sighash r _ _ _ =>
       match lookupTx s r with
